@@ -428,6 +428,10 @@ def rule_contexts(facts):
                     return kw["mb"]
                 if q[0] in ("ok", "try") and pat.has_call(q, "decode_bit") and "bit" in kw:
                     return kw["bit"]
+                # the symbol finished by a private helper of this type (a loop moved out of decode_literal)
+                if q[0] in ("ok", "try") and "sym" in kw and "bit" not in kw and not pat.has_call(q, "last_n") and \
+                        flow.term_has(q, lambda z: z[0] == "call" and str(z[1]).startswith("decode::lzma::DecoderState")):
+                    return kw["sym"]
                 raise pat.NotEvaluable(q)
             return pat.eval_cmp(t, leaf) if pat.cmp_sides(t) else pat.eval_term(t, leaf)
 
@@ -498,7 +502,7 @@ def rule_contexts(facts):
                lambda t: pat.cmp_sides(t) and pat.has_call(t, "decode_bit") and not pat.has_call(t, "last_n") and
                [bool(ev(t, sym=sy)) for sy in (1, 0xFF, 0x100, 0x1FF)] in ([True, True, False, False], [False, False, True, True]))
         exists("byte = symbol - 0x100", "result",
-               lambda t: t[0] in ("Sub", "cast", "BitAnd") and pat.has_call(t, "decode_bit") and
+               lambda t: t[0] in ("Sub", "cast", "BitAnd") and (pat.has_call(t, "decode_bit") or pat.has_call(t, "decode::lzma::DecoderState")) and
                all(ev(t, sym=sy) & 0xFF == (sy - 0x100) & 0xFF and ev(t, sym=sy) in (sy - 0x100, sy & 0xFF) for sy in (0x100, 0x155, 0x1FF)))
         tm = Terms(lit)
         ln_ = [blk for blk in lit.calls() if blk.term.callee is not None and blk.term.callee.method == "last_n"]
